@@ -112,4 +112,15 @@ theorem src_unknown_modes_and_alpha_reach_their_checks :
 theorem src_cross_unknown_modes_reach_their_check :
     Gen.cpccaInverseCompsExpr = ["self.data['components1'].sel(mode=X.mode)", "self.data['components2'].sel(mode=Y.mode)"] := by decide
 
+/-- a rotator asked for more modes than the model has is refused (single-set and cross-set rotators), before it writes any state;
+a request within the model's modes passes (generated from the first statements of both `_fit_algorithm`s) -/
+theorem rotator_modes_gt_model_rejected (nModes nModel : Int) (h : nModel < nModes) :
+    Gen.rotatorModesGuardSingle nModes nModel = .error .ValueError ∧ Gen.rotatorModesGuardCross nModes nModel = .error .ValueError := by
+  simp [Gen.rotatorModesGuardSingle, Gen.rotatorModesGuardCross, h, Py.raise]
+
+theorem rotator_modes_le_model_accepted (nModes nModel : Int) (h : nModes ≤ nModel) :
+    Gen.rotatorModesGuardSingle nModes nModel = .ok () ∧ Gen.rotatorModesGuardCross nModes nModel = .ok () := by
+  have : ¬ nModel < nModes := by omega
+  simp [Gen.rotatorModesGuardSingle, Gen.rotatorModesGuardCross, this, pure, Except.pure]
+
 end C17
